@@ -156,6 +156,25 @@ func c04FaultSnapshots() []rdbScenario {
 	return []rdbScenario{a, b}
 }
 
+// c04PressureSnapshots: many small keys before the damaged tail, so that with
+// RdbPipeSize 1 or 2 and one worker every queue between parser, distributor and worker
+// is full (and the parser blocked on its send) when the parser reaches the damage:
+// in flight = 1 (worker) + pipe + 1 (distributor) + pipe <= 6 entries, at least 9
+// entries that each need a target request precede the last 60 bytes.
+func c04PressureSnapshots() []rdbScenario {
+	e := func(kind string) ref.RDBEnc { return ref.RDBEnc{Kind: kind} }
+	var a, b []rdbKeySpec
+	for i := 1; i <= 9; i++ {
+		a = append(a, c04Key(fmt.Sprintf("s%02d", i), "string/short", e("raw")))
+	}
+	a = append(a, c04Key("k10", "list/small", ref.RDBEnc{Kind: "quicklist2", Node: 2}), c04Key("k11", "hash/small", e("listpack")), c04Key("k12", "set/int16", e("intset16")))
+	for i := 1; i <= 8; i++ {
+		b = append(b, c04Key(fmt.Sprintf("s%02d", i), "string/short", e("raw")))
+	}
+	b = append(b, c04Key("big", "chunk/h/6", e("table")), c04Key("k10", "zset/small", e("listpack")), c04Key("k11", "string/int:300", e("int")))
+	return []rdbScenario{{Keys: a, Version: 11}, {Keys: b, Version: 11, ChunkAt: 64}}
+}
+
 // ---------------------------------------------------------------------------
 // damage variants
 
@@ -183,8 +202,9 @@ func (v c04Variant) String() string {
 }
 
 // c04Variants: every truncation length, then every alteration of every byte that
-// the checksum covers (quick: the 8 one-bit flips, thorough: all 255 other values).
-func c04Variants(file []byte, tier string, tail int) []c04Variant {
+// the checksum covers (quick: the 8 one-bit flips, and all 255 other values of the value
+// type bytes; thorough: all 255 other values everywhere).
+func c04Variants(file []byte, tier string, tail int, typeAt []int) []c04Variant {
 	var out []c04Variant
 	firstLen, firstPos := 0, 0
 	if tail > 0 {
@@ -203,8 +223,16 @@ func c04Variants(file []byte, tier string, tail int) []c04Variant {
 			out = append(out, c04Variant{Trunc: l, ErrKind: "reset", Pos: -1})
 		}
 	}
+	allValues := map[int]bool{}
+	if tail == 0 {
+		// a value type byte decides how everything after it is read: all 255 other values in
+		// every tier (this is where a misread length field can claim terabytes)
+		for _, p := range typeAt {
+			allValues[p] = true
+		}
+	}
 	for p := firstPos; p < len(file)-8; p++ {
-		if tier == "thorough" {
+		if tier == "thorough" || allValues[p] {
 			for d := 1; d < 256; d++ {
 				out = append(out, c04Variant{Trunc: -1, Pos: p, Val: int(file[p]) ^ d})
 			}
@@ -290,7 +318,7 @@ func TestVerifC04Probe(t *testing.T) {
 		rdb.VerifSetMaxBinEntryBuffer(in.Scn.ChunkAt)
 	}
 	defer rdb.VerifSetMaxBinEntryBuffer(old)
-	vars := c04Variants(built.File, in.Tier, in.Tail)
+	vars := c04Variants(built.File, in.Tier, in.Tail, built.TypeAt)
 	pf, err := os.OpenFile(in.Progress, os.O_CREATE|os.O_WRONLY, 0o644)
 	if err != nil {
 		t.Fatal(err)
@@ -715,9 +743,11 @@ func runC04(t *testing.T, rep *mc.Reporter) {
 	}
 	// (a2) damage near the end of multi-key snapshots while the pipes between parser,
 	// distributor and worker are full: RdbPipeSize 1 and 2, one worker, with a target that
-	// processes nothing until every goroutine of the tool is blocked (default stepping) and
-	// with a target that answers at once
-	for _, base := range c04FaultSnapshots() {
+	// processes nothing until every goroutine of the tool is blocked (default stepping:
+	// deterministic, see c04PressureSnapshots) and with a target that answers at once (the
+	// goroutines of the tool then race; the oracle holds for every interleaving, so such an
+	// execution is judged from a single observation and not re-run)
+	for _, base := range c04PressureSnapshots() {
 		for _, ps := range []int{1, 2} {
 			for _, restore := range []bool{true, false} {
 				b := base
@@ -741,7 +771,7 @@ func runC04(t *testing.T, rep *mc.Reporter) {
 			rep.Machinery("generator: "+err.Error(), nil)
 			return
 		}
-		vars := c04Variants(built.File, tier, d.tail)
+		vars := c04Variants(built.File, tier, d.tail, built.TypeAt)
 		// the probe only looks at the bytes: its shard filter follows the first pass over the variants
 		pr, err := c04Probe(base, tier, d.tail, idx+1, shard, nshards, len(vars))
 		if err != nil {
@@ -820,6 +850,16 @@ func runC04(t *testing.T, rep *mc.Reporter) {
 				}
 				if d.tail > 0 {
 					rep.Count("tail_damage_executions", 1)
+				}
+				if eager || base.Cfg.Parallel > 1 {
+					rep.Scenario()
+					r := c04Exec(t, scn, nil)
+					if r.Verdict == "ok" && r.Detail == "accepted-complete" {
+						rep.Count("damage_accepted_but_complete", 1)
+						r.Detail = nil
+					}
+					rep.Exec(scn, nil, r)
+					continue
 				}
 				mc.RunScenario(rep, scn, 0, budget, func(ch *mc.Chooser) mc.Result {
 					r := c04Exec(t, scn, ch)
